@@ -254,6 +254,13 @@ def check_trace(events, aborted):
                 o['status'] = 'EXECUTED'
                 pb = (calls[e['o']].get('pos') or {}).get('qty')
                 pa = (e.get('pos') or {}).get('qty')
+                if o.get('reduce_only') and not o.get('in_liq'):
+                    c('exit_fills_checked')
+                    if pb == 0:
+                        # "once the position is closed no exit order remains active": this one was, and it has been filled
+                        v('exit_order_filled_after_position_closed',
+                          f"exit {o['type']} {o['side']} {o['qty']}@{o['price']} was executed although the position was already closed "
+                          f"(position afterwards: {pa})", order=o)
                 if pb == 0 and pa not in (0, None):
                     cycle_start[o['symbol']] = calls[e['o']]['seq']
     return viol, cnt
@@ -277,7 +284,8 @@ def _session(job):
         sc['observe'] = 'light'
         sc['p_update'] = rng.choice([0.1, 0.3, 0.5])
         sc['update_kinds'] = rng.sample(['trail_sl', 'tp_ladder', 'sl_ladder', 'liquidate', 'near_tp', 'near_tp', 'add_market', 'add_market',
-                                         'reweight_tp', 'reweight_tp', 'reweight_sl', 'trail_sl_inplace', 'trail_sl_inplace', 'move_tp_inplace'],
+                                         'reweight_tp', 'reweight_tp', 'reweight_sl', 'trail_sl_inplace', 'trail_sl_inplace', 'move_tp_inplace',
+                                         'double_market_exit', 'double_market_exit'],
                                         rng.randint(2, 4))
         sc['on_increased'] = rng.choice(['retarget', 'retarget', None])
         sc['cancel_policy'] = rng.choice(['rnd', 'rnd', 'never', 'always'])
